@@ -1248,9 +1248,23 @@ static void xj_helper(void *p)
     xj_resume_all(9);
     EV("\"e\":\"Finish\",\"u\":9");
 }
-static void scn_xjoin(void)
+/* stacked = 1: the units live in a pool of their own that a stacked scheduler
+ * (ABT_pool_add_sched into the main pool of stream 1) serves; the stacked scheduler
+ * is asked to finish (or just runs out of work) and the stream is joined */
+static void scn_xjoin_impl(int stacked);
+static void scn_xjoin(void) { scn_xjoin_impl(0); }
+static void scn_stacked(void) { scn_xjoin_impl(1); }
+static void scn_xjoin_impl(int stacked)
 {
     memset(U, 0, sizeof U);
+    ABT_pool upool = g_pool[1][0], q = ABT_POOL_NULL;
+    ABT_sched s2 = ABT_SCHED_NULL;
+    if (stacked) {
+        static const ABT_sched_predef pre[3] = { ABT_SCHED_BASIC, ABT_SCHED_PRIO, ABT_SCHED_RANDWS };
+        CHK(ABT_pool_create_basic(rnd(2) ? ABT_POOL_FIFO : ABT_POOL_RANDWS, ABT_POOL_ACCESS_MPMC, ABT_FALSE, &q));
+        CHK(ABT_sched_create_basic(pre[rnd(3)], 1, &q, ABT_SCHED_CONFIG_NULL, &s2));
+        upool = q;
+    }
     g_xj_go = 0;
     g_xj_n = 1 + rnd(3);
     int use_ext = rnd(2);
@@ -1269,7 +1283,7 @@ static void scn_xjoin(void)
         UA[u->id][0].inc = 0;
         EV("\"e\":\"Create\",\"by\":0,\"u\":%d,\"kind\":0,\"named\":%d,\"arg\":%d,\"pool\":1", u->id, u->named, u->id * 10);
         ABT_thread th;
-        CHK(ABT_thread_create(g_pool[1][0], xj_body, &UA[u->id][0], ABT_THREAD_ATTR_NULL, u->named ? &th : NULL));
+        CHK(ABT_thread_create(upool, xj_body, &UA[u->id][0], ABT_THREAD_ATTR_NULL, u->named ? &th : NULL));
         if (u->named)
             UA[u->id][1].u = (unit_t *)th; /* keep the handle for the final free */
         EV("\"e\":\"CreateRet\",\"by\":0,\"u\":%d", u->id);
@@ -1284,15 +1298,19 @@ static void scn_xjoin(void)
         CHK(ABT_thread_create(g_pool[0][0], xj_helper, NULL, ABT_THREAD_ATTR_NULL, &helper));
         EV("\"e\":\"CreateRet\",\"by\":0,\"u\":9");
     }
+    if (stacked)
+        CHK(ABT_pool_add_sched(g_pool[1][0], s2));
     /* wait until every unit is suspended, then join the stream */
     for (int i = 0; i < g_xj_n; i++)
         while (g_xj_units[i]->want_resume != 1)
             pause_any(0);
+    if (stacked && rnd(2))
+        CHK(ABT_sched_finish(s2)); /* otherwise the stacked scheduler stops when it has run out of work */
     /* the stop test reads "pool empty?" and then the blocked counter: hold the
      * scheduler back between the two reads now and then, so that a resume
      * (push, decrement) can fall into that window */
     if (rnd(2))
-        abtv_watch_load(&ABTI_pool_get_ptr(g_pool[1][0])->num_blocked, 40 + rnd(400), 300);
+        abtv_watch_load(&ABTI_pool_get_ptr(upool)->num_blocked, 40 + rnd(400), 300);
     EV("\"e\":\"XJoinCall\",\"s\":1");
     g_xj_go = 1;
     CHK(ABT_xstream_join(g_xs[1]));
@@ -1314,6 +1332,12 @@ static void scn_xjoin(void)
             CHK(ABT_thread_free(&th));
             EV("\"e\":\"FreeRet\",\"by\":0,\"u\":%d,\"null\":%d,\"tok\":%d", u->id, th == ABT_THREAD_NULL, u->token);
         }
+    }
+    if (stacked) {
+        size_t left = 0;
+        CHK(ABT_pool_get_total_size(q, &left));
+        EV("\"e\":\"Blocked\",\"tag\":\"afterjoin\",\"p\":9,\"n\":0,\"size\":%d", (int)left);
+        CHK(ABT_pool_free(&q));
     }
 }
 
@@ -1949,9 +1973,11 @@ static void scenario(const char *name, uint64_t seed)
     }
     setup_streams();
     if (!strcmp(name, "migrate") || !strcmp(name, "migrace") || !strcmp(name, "switch") || !strcmp(name, "xjoin") ||
-        !strcmp(name, "cancelnew") || !strcmp(name, "cancelmix") || !strcmp(name, "ryt") || !strcmp(name, "replace") || !strcmp(name, "ytrace")) {
+        !strcmp(name, "cancelnew") || !strcmp(name, "cancelmix") || !strcmp(name, "ryt") || !strcmp(name, "replace") || !strcmp(name, "ytrace") || !strcmp(name, "stacked")) {
         if (!strcmp(name, "migrace"))
             scn_migrace();
+        else if (!strcmp(name, "stacked"))
+            scn_stacked();
         else if (!strcmp(name, "ytrace"))
             scn_ytrace();
         else if (!strcmp(name, "replace"))
@@ -1969,7 +1995,7 @@ static void scenario(const char *name, uint64_t seed)
         else
             scn_migrate();
         for (int e = 1; e < g_nes; e++) {
-            if (e == 1 && !strcmp(name, "xjoin"))
+            if (e == 1 && (!strcmp(name, "xjoin") || !strcmp(name, "stacked")))
                 continue;
             EV("\"e\":\"XJoinCall\",\"s\":%d", e);
             CHK(ABT_xstream_join(g_xs[e]));
